@@ -537,7 +537,9 @@ class Fn:
                 out |= self._call_origins(payload, rest, visiting)
             else:
                 out |= self._rv_origins(payload, rest, bb, idx, visiting)
-        if not out and not (1 <= local <= self.nargs):
+        if not out and not (1 <= local <= self.nargs) and not (steps and steps[0][0] == "variant" and self.defs.get(local)):
+            # (a local whose every definition is another variant than the one asked for has no
+            #  such value: `(x as Some).0` where x is only ever None)
             out.add((("undef", local),) + steps)
         if len(visiting) == 1:
             self._origin_cache[key] = out
